@@ -171,6 +171,7 @@ pub fn normalize(raw: &Case, opts: &NormOpts) -> Case {
             let mut held = vec![true; objects];
             let mut slots: [Option<SlotInfo>; NSLOTS] = [None; NSLOTS];
             let mut pslots: [Option<(usize, usize)>; NSLOTS] = [None; NSLOTS];
+            let mut paused = [false; NSLOTS];
             let mut out: Vec<Op> = vec![];
             // the object this caller currently "holds" in the lock-ordering sense (unfinished future_sync,
             // active suspension, polled-but-unfinished future): blocking is only allowed on higher objects
@@ -416,6 +417,12 @@ pub fn normalize(raw: &Case, opts: &NormOpts) -> Case {
                     Op::Consume { slot, k } => {
                         let ps = sl(*slot);
                         match pslots[ps] {
+                            // (a pipe paused with a depth of 0 delivers nothing until its owner raises the depth again: the
+                            // owner does that instead of waiting)
+                            Some(_) if paused[ps] => {
+                                paused[ps] = false;
+                                Op::SetDepth { slot: ps as u8, depth: 1 + (*k % 5) }
+                            }
                             Some((_, o)) if can_block_on(o) => Op::Consume { slot: ps as u8, k: 1 + (*k % 6) },
                             _ => Op::Nop,
                         }
@@ -423,14 +430,20 @@ pub fn normalize(raw: &Case, opts: &NormOpts) -> Case {
                     Op::SetDepth { slot, depth } => {
                         let ps = sl(*slot);
                         if pslots[ps].is_some() {
-                            Op::SetDepth { slot: ps as u8, depth: 1 + sc(*depth, 5) }
+                            // 0 pauses the pipe (nothing is read from the input while the buffer holds "at least 0" items)
+                            let v = sc(*depth, 6);
+                            paused[ps] = v == 5;
+                            Op::SetDepth { slot: ps as u8, depth: if v == 5 { 0 } else { 1 + v } }
                         } else {
                             Op::Nop
                         }
                     }
                     Op::ConsumeInline { slot, drop_on_wake } => {
                         let ps = sl(*slot);
-                        if pslots[ps].is_some() && cfg.pool >= 1 {
+                        if pslots[ps].is_some() && paused[ps] {
+                            paused[ps] = false;
+                            Op::SetDepth { slot: ps as u8, depth: 2 }
+                        } else if pslots[ps].is_some() && cfg.pool >= 1 {
                             pslots[ps] = None;
                             Op::ConsumeInline { slot: ps as u8, drop_on_wake: *drop_on_wake }
                         } else {
@@ -441,6 +454,7 @@ pub fn normalize(raw: &Case, opts: &NormOpts) -> Case {
                         let ps = sl(*slot);
                         if pslots[ps].is_some() {
                             pslots[ps] = None;
+                            paused[ps] = false;
                             Op::DropPipe { slot: ps as u8 }
                         } else {
                             Op::Nop
